@@ -2,3 +2,13 @@
 #[path = "../../vlib/vlib.rs"]
 pub mod vlib;
 pub mod c19_ops;
+// same module paths as the mounted build, so that shared harness files compile in both crates
+pub use rln::{circuit, hashers, protocol, public};
+pub mod utils {
+    pub use rln::utils::*;
+}
+#[path = "../../vlib/stubs_common.rs"]
+pub mod stubs;
+pub mod c12_guard;
+pub mod c10_codecs;
+pub mod c04_formulas;
